@@ -45,6 +45,29 @@ def seeded():
     return "\n".join(rows)
 
 
+def benign():
+    rows = ["| id | property | kind | what the change does | observable difference | quick check (seed 1) |", "|---|---|---|---|---|---|"]
+    for d in sorted(glob.glob(os.path.join(V, "benign", "*"))):
+        bid = os.path.basename(d)
+        try:
+            m = json.load(open(os.path.join(d, "meta.json")))
+        except Exception:
+            continue
+        r = json.load(open(os.path.join(d, "result.json"))) if os.path.exists(os.path.join(d, "result.json")) else {}
+        res = []
+        for p, x in sorted(r.items()):
+            if not x.get("alarm"):
+                res.append("%s: silent" % p)
+            elif x.get("claims_failing_input"):
+                res.append("%s: **FALSE ALARM with a claimed input**: %s" % (p, "; ".join(re.sub(r"^\s*\d+ x ", "", c) for c in x.get("clauses", [])[:1])[:200]))
+            else:
+                res.append("%s: no-failing-input-found (%s)" % (p, "; ".join(re.sub(r"^\s*\d+ x ", "", c) for c in x.get("clauses", [])[:1])[:160]))
+        cut = lambda t, n: str(t)[:n].replace("|", "\\|").replace("\n", " ")
+        rows.append("| %s | %s | %s | %s | %s | %s |" % (bid, m.get("property"), m.get("kind", ""), cut(m.get("what", ""), 300), cut(m.get("observable_difference", ""), 160),
+                                               "<br>".join(res).replace("|", "\\|") or "not run"))
+    return "\n".join(rows)
+
+
 def status():
     rows = ["| property | obligations (theorems audited every run) | proof files (lines) | model files (lines) |", "|---|---|---|---|"]
     def wc(paths):
@@ -75,6 +98,7 @@ def main():
     t = splice(t, "findings", findings())
     t = splice(t, "seeded", seeded())
     t = splice(t, "status", status())
+    t = splice(t, "benign", benign())
     open(p, "w").write(t)
 
 
